@@ -1,6 +1,8 @@
 package dawn
 
 import (
+	"crypto/sha256"
+	"encoding/hex"
 	"encoding/json"
 	"fmt"
 	"io"
@@ -407,7 +409,37 @@ type targetInfo struct {
 	Doc          string            `json:"doc,omitempty"`
 	Dependencies map[string]string `json:"dependencies,omitempty"`
 	Data         string            `json:"stamp,omitempty"`
+	Stamp        string            `json:"combinedStamp,omitempty"`
 	Rerun        bool              `json:"rerun,omitempty"`
+}
+
+// stamp returns the value that the target's dependents compare against: the target's own data
+// combined with the stamps of the dependencies it was last evaluated against.
+func (info targetInfo) stamp() string {
+	if info.Stamp != "" {
+		return info.Stamp
+	}
+	return info.Data
+}
+
+// combineStamps combines a target's own data with the stamps of its dependencies. A target without
+// dependencies is stamped with its data alone.
+func combineStamps(data string, deps map[string]string) string {
+	if len(deps) == 0 {
+		return data
+	}
+	labels := make([]string, 0, len(deps))
+	for l := range deps {
+		labels = append(labels, l)
+	}
+	sort.Strings(labels)
+
+	h := sha256.New()
+	io.WriteString(h, data)
+	for _, l := range labels {
+		io.WriteString(h, "\x00"+l+"\x00"+deps[l])
+	}
+	return hex.EncodeToString(h.Sum(nil))
 }
 
 func (proj *Project) targetInfoPath(l *label.Label) string {
